@@ -10,6 +10,7 @@ mod gen4;
 mod oracle;
 mod oracle2;
 mod oracle3;
+mod oracle4;
 mod prng;
 mod run;
 mod show;
